@@ -146,23 +146,41 @@ def run(ctx):
                             break
         if di == 0:
             ctx.sample({"disk": kind, "flavour": flav, "ops": len(L)})
-    # (d) out-of-range pointers on a 2-partition disk: redirect a file header's self pointer / data pointers past the partition
-    for case in range(4 if ctx.tier == "quick" else 24):
-        flav = rng.choice([0, 1])
-        L = gen.dev_create("PART:60:2:16:2,25;27,25", flav) + ["mountdev 0", "mount 0 0",
-             "open 0 - %s w" % hexs("victim"), "write 0 5 3000", "close 0", "umount", "umountdev"]
+    # (d) out-of-range pointers on a 2-partition disk: redirect pointers of a file's header / extension block past the partition
+    #     (or, as a negative number, in front of it), then run operations that write those blocks back
+    TARGETS = [800, 807, 800 + 63, 801, 1599, 2 ** 31 - 1, 2 ** 32 - 5, 2 ** 32 - 1, 2 ** 32 - 64, 2 ** 32 - 63, 2 ** 32 - 30]
+    BIGF = [("ext.ownkey", 73, 4), ("ext.parent", 73, 512 - 12), ("ext.next", 73, 512 - 8), ("ext.data0", 73, 24 + 71 * 4), ("hdr.extension", 0, 512 - 8), ("hdrkey", 0, 4)]
+    SMALLF = [("hdrkey", 0, 4), ("data0", 0, 24 + 71 * 4), ("ext", 0, 512 - 8), ("parent", 0, 512 - 12)]
+    combos = [(True, f, t) for f in BIGF for t in TARGETS] + [(False, f, t) for f in SMALLF for t in TARGETS]
+    if ctx.tier == "thorough":
+        combos = combos * 2
+    for case, (big, f0, target) in enumerate(combos):
+        flav = case % 2 if ctx.tier == "quick" else rng.choice([0, 1])
+        bs = 512 if flav & 1 else 488
         first0, size0 = 64, 800
-        target = rng.choice([size0, size0 + 7, size0 + first0 - 1, size0 + 1, 2 * size0 - 1, 2 ** 31 - 1, 2 ** 32 - 5])
-        field = rng.choice([("hdrkey", 4), ("data0", 24 + 71 * 4), ("ext", 512 - 8), ("parent", 512 - 12)])
-        # header of the first file on an empty volume: root+2 (bitmap at root+1) ; root = size/2
+        L = gen.dev_create("PART:120:2:16:2,25;27,25", flav) + ["mountdev 0", "mount 0 0",
+             "open 0 - %s w" % hexs("victim"), "write 0 5 %d" % (80 * bs if big else 3000), "close 0", "umount", "umountdev"]
+        # header of the first file on an empty volume: root+2 (bitmap at root+1), root = size/2; its blocks follow one by one:
+        # 72 data blocks, then the extension block, then its data blocks.  Targets: just past the partition, inside the next one,
+        # far away, and (as negative numbers) in front of the partition / in the partition-table area
         hdr = size0 // 2 + 2
-        L2 = ["loaddev mem $W/img", "mountdev 0", "wlog $W/log reads", "mount 0 0",
-              "open 0 - %s rw" % hexs("victim"), "seek 0 100", "write 0 9 700", "flush 0", "read 0 100", "close 0",
-              "rm - %s" % hexs("victim"), "umount", "wlog off", "umountdev"]
-        script = "\n".join(L + ["dump $W/img0", "loaddev mem $W/img0 60 2 16",
-                                "poke32 %d %d %d fixsum 20" % (first0 + hdr, field[1], target), "dump $W/img"] + L2) + "\n"
+        field = (f0[0], hdr + f0[1], f0[2])
+        if big:
+            ops = ["open 0 - %s rw" % hexs("victim"), "seek 0 %d" % (75 * bs), "write 0 9 %d" % (6 * bs), "flush 0", "seek 0 %d" % (73 * bs), "read 0 100",
+                   "trunc 0 %d" % (74 * bs), "close 0", "rm - %s" % hexs("victim")]
+        else:
+            ops = ["open 0 - %s rw" % hexs("victim"), "seek 0 100", "write 0 9 700", "flush 0", "read 0 100", "close 0", "rm - %s" % hexs("victim")]
+        L2 = ["loaddev mem $W/img", "mountdev 0", "wlog $W/log reads", "mount 0 0"] + ops + ["umount", "wlog off", "umountdev"]
+        script = "\n".join(L + ["dump $W/img0", "loaddev mem $W/img0 120 2 16",
+                                "poke32 %d %d %d fixsum 20" % (first0 + field[1], field[2], target), "dump $W/img"] + L2) + "\n"
         rc, out, err, wd = common.run_script(ctx, script)
-        ctx.count(("ptr", flav, target, field))
+        res_ = common.parse_results(out)
+        # the set-up part must work (a device the library cannot mount would make every case vacuous)
+        setup_ok = all((res_.get(i) or ["?"])[-1].startswith("ok") for i in range(1, len(L) + 1))
+        if not setup_ok:
+            ctx.fail("corr", "set-up of an out-of-range pointer case failed: the case is vacuous", {"script": script}, actual=[(res_.get(i) or ["?"])[-1] for i in range(1, len(L) + 1)])
+            break
+        ctx.count(("ptr", flav, target, field, big))
         ctx.bump("out_of_range_pointer")
         lp = os.path.join(wd, "log")
         if os.path.exists(lp):
